@@ -235,6 +235,32 @@ def run_shard(args):
                 out["violations"].append({"kind": "changed-argument-not-reported-as-UsageError", "detail": {"case": name, "F": list(F), "events": ev}, "witness": wit, "finding": None})
             if res.crashed():
                 out["violations"].append({"kind": "changed-argument-crashes-session-end", "detail": {"case": name, "F": list(F), "collect": res.collect_exc, "apply": res.apply_exc}, "witness": wit, "finding": None})
+    # ---- real sessions: module-level snapshots at the same position of several identically laid
+    # out files (the key is (id(code), f_lasti): a freed module code object could be re-used)
+    if args.shard < (2 if tier == "quick" else 16):
+        from .. import session
+
+        rng = random.Random(f"{args.seed}/{PROP}/session/{args.shard}")
+        nfiles = rng.randint(4, 9)
+        files = {}
+        for i in range(nfiles):
+            files[f"test_m{i}.py"] = f"from inline_snapshot import snapshot\n\ns = snapshot()\nt = snapshot()\n\ndef test_a():\n    assert ('f{i}', 's') == s\n    for n in range(3):\n        assert ('f{i}', n) <= t\n"
+        proj = session.Project(files, with_vp=False)
+        try:
+            r = session.run_session(proj, ["--inline-snapshot=create"])
+        finally:
+            proj.close()
+        C["real_sessions"] = C.get("real_sessions", 0) + 1
+        wit = {"files": files, "args": ["--inline-snapshot=create"]}
+        if any(a["kind"] == "sessionfinish_exception" for a in r.audit):
+            out["violations"].append({"kind": "session-end-raised", "detail": {"events": [a for a in r.audit if a["kind"] == "sessionfinish_exception"]}, "witness": wit, "finding": None})
+        for i in range(nfiles):
+            out["evaluations"] += 1
+            out["signatures"].add(f"real-session/module-level/{nfiles}files")
+            text = r.after.get(f"test_m{i}.py", b"").decode()
+            want_s, want_t = f"s = snapshot((\"f{i}\", \"s\"))", f"t = snapshot((\"f{i}\", 2))"
+            if want_s not in text or want_t not in text:
+                out["violations"].append({"kind": "module-level-site-value-is-not-its-own-aggregate(real session)", "detail": {"file": f"test_m{i}.py", "expected_lines": [want_s, want_t], "got": text[:400], "stdout_tail": r.stdout[-400:]}, "witness": wit, "finding": None})
     out["signatures"] = sorted(out["signatures"])
     return out
 
